@@ -14,7 +14,7 @@ failed=$(grep -E "^test result" /tmp/confirm_suite.log | awk '{s+=$6} END {print
 echo "SUITE passed=$passed failed=$failed"
 git apply $D/demo.diff || { echo "RESULT demo-does-not-apply"; exit 1; }
 names=$(grep -E '^\+.*fn [a-z_0-9]+\(' $D/demo.diff | grep -B0 -E 'fn (demo|test|seed|break|c[0-9]+)[a-z_0-9]*' | sed -E 's/.*fn ([a-z_0-9]+)\(.*/\1/' | sort -u)
-tests=$(grep -E -A3 '^\+\s*#\[(tokio::)?test' $D/demo.diff | grep -E 'fn [a-z_0-9]+' | sed -E 's/.*fn ([a-z_0-9]+).*/\1/' | sort -u)
+tests=$(awk '/^\+[[:space:]]*#\[(tokio::)?test/ {want=1; next} want && /fn [a-z_0-9]+/ {match($0, /fn [a-z_0-9]+/); print substr($0, RSTART+3, RLENGTH-3); want=0}' $D/demo.diff | sort -u)
 echo "demo tests: $tests"
 run_demo() {
   ok=1
